@@ -24,7 +24,7 @@ def run(rep, work, rng, tier):
         key = 'points=%d channels=%d subframes=%d' % (min(c['npoints'], 9), min(c['nchan'], 9), c['nsub'])
         shapes[key] = shapes.get(key, 0) + 1
     nv = 0
-    for p in VENDOR:
+    for p in (VENDOR[1:3] if tier == 'quick' else VENDOR):
         if os.path.exists(p):
             name = 'vendor%d.c3d' % nv; nv += 1
             open(os.path.join(shared, name), 'wb').write(open(p, 'rb').read())
